@@ -114,6 +114,8 @@ def _run_cvc5(smt2, timeout_ms, inputs, want_model=False, fmf=False):
     text = smt2
     # z3 prints (check-sat) at the end; cvc5 needs a logic and get-value for models
     text = "(set-logic ALL)\n" + text
+    inputs = [n for n in inputs if f"(declare-fun {n} " in smt2 or f"(declare-fun |{n}| " in smt2
+              or f"(declare-const {n} " in smt2]
     if want_model and inputs:
         names = " ".join(n if re.fullmatch(r"[A-Za-z_][A-Za-z0-9_.!]*", n) else f"|{n}|" for n in inputs)
         text += f"\n(get-value ({names}))\n"
